@@ -578,7 +578,7 @@ class Issue:
             return f"structure:{mode_name}:{self.family}"
         if self.kindless:
             return f"structure:{mode_name}:{self.what}"
-        return f"structure:{mode_name}:{self.what}:{self.kind}"
+        return f"structure:{mode_name}:{self.what}:{coarse_kind(self.kind)}"
 
 
 def _is_public_member(name: str) -> bool:
